@@ -26,7 +26,11 @@ import (
 	"math/rand"
 	"os"
 	"path/filepath"
+	"runtime"
 	"strings"
+	"sync"
+	"sync/atomic"
+	"time"
 
 	"github.com/ethereum/go-ethereum/common"
 	"github.com/ethereum/go-ethereum/core/rawdb"
@@ -279,6 +283,84 @@ func runItem(o *Out, it c13item, mut string, st *c13stats) {
 		st.panics++
 	}
 	o.Case(it.line(mut), fmt.Sprintf("v=%s p=%s n=%d idok=%d", v, p, len(rec.puts), idok))
+	if (v == "ok" || v == "err") && len(c13Samples) < 600 && len(content) < 20000 {
+		c13Samples = append(c13Samples, c13Sample{key, content, it.oracle, v})
+	}
+}
+
+// c13Sample: an item with the verdict it got when it was validated alone
+type c13Sample struct {
+	key, content []byte
+	oracle       []oracleEntry
+	verdict      string
+}
+
+var c13Samples []c13Sample
+
+// slowOracle answers from one table for everybody and takes a moment over it (the header look-up is a network round trip in a
+// node): the window in which another validation runs on the same validator
+type slowOracle struct {
+	tableOracle
+}
+
+func (t *slowOracle) GetBlockHeaderByHash(hash []byte) (*types.Header, error) {
+	time.Sleep(20 * time.Microsecond)
+	runtime.Gosched()
+	return t.tableOracle.GetBlockHeaderByHash(hash)
+}
+
+// runConcurrentValidation: one validator, eight goroutines (a node validates offers in a pool of workers), each going through
+// the sampled items: every verdict is the one the item got alone
+func runConcurrentValidation(o *Out, thorough bool) {
+	if len(c13Samples) == 0 {
+		return
+	}
+	so := &slowOracle{tableOracle{roots: map[string][]byte{}}}
+	for _, sm := range c13Samples {
+		for _, e := range sm.oracle {
+			if old, ok := so.roots[string(e.bh)]; ok && !bytes.Equal(old, e.root) {
+				continue // two cases name one block hash with different roots: leave such samples to the sequential run
+			}
+			so.roots[string(e.bh)] = e.root
+		}
+	}
+	var usable []c13Sample
+	for _, sm := range c13Samples {
+		ok := true
+		for _, e := range sm.oracle {
+			if !bytes.Equal(so.roots[string(e.bh)], e.root) {
+				ok = false
+			}
+		}
+		if ok && len(sm.oracle) > 0 {
+			usable = append(usable, sm)
+		}
+	}
+	v := state.NewStateValidator(so)
+	rounds := 3
+	if thorough {
+		rounds = 30
+	}
+	var diffs, falseAccepts int64
+	var wg sync.WaitGroup
+	for w := 0; w < 8; w++ {
+		wg.Add(1)
+		go func(w int) {
+			defer wg.Done()
+			for k := 0; k < rounds*len(usable); k++ {
+				sm := usable[(k*7+w*13)%len(usable)]
+				got := callValidate(v, sm.key, sm.content)
+				if got != sm.verdict {
+					atomic.AddInt64(&diffs, 1)
+					if got == "ok" {
+						atomic.AddInt64(&falseAccepts, 1)
+					}
+				}
+			}
+		}(w)
+	}
+	wg.Wait()
+	o.Case(fmt.Sprintf("concval workers=8 samples=%d rounds=%d", len(usable), rounds), fmt.Sprintf("diffs=%d falseaccepts=%d", diffs, falseAccepts))
 }
 
 // ---------------------------------------------------------------- tries and honest proofs
@@ -772,6 +854,7 @@ func runC13(o *Out, r *rand.Rand, thorough bool, _ []string) {
 	}
 	runTraverse(o, r, nTr)
 	runAccounts(o, r, nAc)
+	runConcurrentValidation(o, thorough)
 	o.Comment(fmt.Sprintf("validate outcomes: accepted=%d rejected=%d panics=%d", st.accepted, st.rejected, st.panics))
 }
 
